@@ -19,8 +19,8 @@ MANIFEST_ENTRY = {
             "output) equals the hand-transcribed RFC 7693 function for every message (no length bound), every chunking, digest length 1..64, "
             "key 0..64 bytes; the models of base58_encode/base58_decode equal the positional Bitcoin-alphabet specification for inputs up to "
             "256/360 bytes, reject exactly non-alphabet bytes, and are mutual inverses within those limits; stringer.hash = Base58(BLAKE2b) for "
-            "every digest length used at the compiler's call sites; the scraped tables/constants are the RFC's and Bitcoin's.  REFUTED: the "
-            "Lua entry point does not reject every digest length outside 1..64 (C int truncation; known finding, repair proposed).  BY "
+            "every digest length used at the compiler's call sites; the Lua entry point refuses every digest length outside 1..64 and every "
+            "key longer than 64 bytes (since repair ede4fb9); the scraped tables/constants are the RFC's and Bitcoin's.  BY "
             "CORRESPONDENCE/TESTING ONLY: that the hand-written model is the C code (regenerated tables + differential runs of the real module, "
             "of a C harness that #includes src/hasher.c under ASan/UBSan, against hashlib and an independent Python RFC/Base58 reference); "
             "'stable across platforms' beyond LP64; nothing about collision resistance / distinctness of names",
@@ -35,8 +35,7 @@ THEOREM_CLASSES = {
     "C20_compress_is_rfc_F": "main",
     "C20_blake2b_conforms": "main",
     "C20_lblake2b_conforms": "corollary",
-    "C20_lblake2b_rejects_refuted": "refutation",     # open defect (known finding hasher:B 4294967301 - 78)
-    "C20_lblake2b_rejects_partial": "corollary",
+    "C20_lblake2b_rejects": "corollary",              # full statement since ede4fb9 (depends on the scraped `lua_Integer digln`)
     "C20_lblake2b_default": "corollary",
     "C20_digest_length": "corollary",
     "C20_blake2b_streaming": "main",
@@ -62,7 +61,6 @@ UNPROVED = [
     "only through harness/C20/stream.c (counter preset near 2^64 and 2^128, unaligned chunkings)",
     "'stable across platforms': proved for size_t = 64 bits / int = 32 bits only (ASSUMPTIONS); 32-bit size_t changes blake2b_incr's carry test",
     "'distinct names and cache keys': no injectivity/collision statement is made (not provable)",
-    "hasher.blake2b rejects digest lengths outside 1..64: REFUTED (C20_lblake2b_rejects_refuted), true only for arguments that fit a C int",
     "C20_compress_is_rfc_F quantifies over message-word lists of any length (both sides read missing words as 0); blake2b_impl only ever passes 16 words (proved)",
 ]
 ALLOWED_AXIOMS = []
